@@ -95,6 +95,14 @@ type faultConn struct {
 	rExpired  bool // the (virtual) read deadline has passed: every Read times out until a new deadline is set
 	rFired    int
 	rCalls    int
+
+	// reader BEHAVIOUR (no fault: legal answers of an io.Reader)
+	rbMode  string // "eof-with-data": from offset rbOff on the transport returns the last bytes of the stream TOGETHER with io.EOF; "zero-read": one (0, nil) answer at offset rbOff; "one-byte": one byte per Read
+	rbOff   int
+	rbTotal int // length of the whole stream towards this reader (the writer has finished: sequential runs)
+	rbDone  bool
+	rbFired int
+	rbFinal int // number of bytes returned together with io.EOF
 }
 
 func newFaultConn(inner net.Conn) *faultConn {
@@ -167,6 +175,40 @@ func (f *faultConn) clearWrite() {
 func (f *faultConn) Read(p []byte) (int, error) {
 	f.mu.Lock()
 	f.rCalls++
+	if f.armed && f.rbMode != "" && len(p) > 0 {
+		switch f.rbMode {
+		case "one-byte":
+			p = p[:1]
+			f.rbFired++
+		case "zero-read":
+			if f.rPos == f.rbOff && !f.rbDone {
+				f.rbDone = true
+				f.rbFired++
+				f.mu.Unlock()
+				return 0, nil
+			}
+			if f.rPos < f.rbOff && len(p) > f.rbOff-f.rPos {
+				p = p[:f.rbOff-f.rPos]
+			}
+		case "eof-with-data":
+			if f.rPos < f.rbOff && len(p) > f.rbOff-f.rPos {
+				p = p[:f.rbOff-f.rPos]
+			}
+		}
+		f.mu.Unlock()
+		n, err := f.inner.Read(p)
+		f.mu.Lock()
+		defer f.mu.Unlock()
+		f.rPos += n
+		if f.rbMode == "eof-with-data" && err == nil && n > 0 && f.rPos == f.rbTotal && !f.rbDone {
+			// io.Reader: "a Reader returning a non-zero number of bytes at the end of the input stream may return either err == EOF or err == nil"
+			f.rbDone = true
+			f.rbFired++
+			f.rbFinal = n
+			return n, io.EOF
+		}
+		return n, err
+	}
 	if f.armed {
 		if f.rExpired {
 			f.rFired++
@@ -333,12 +375,22 @@ func (r *rfault) class() string {
 	return s
 }
 
+// rbehav: a legal behaviour of the reader's transport (nothing is faulty): see faultConn.rbMode.
+type rbehav struct {
+	Mode string
+	Off  int // absolute offset in the writer->reader stream
+	Rec  int
+	D    int
+	Last bool // Rec is the last record of the stream
+}
+
 type localJob struct {
 	cf    connConf
 	rev   bool
 	sizes []int
 	wf    *wfault
 	rf    *rfault
+	rb    *rbehav
 	rbuf  int
 	seg   int
 	nWr   int // transport writes of the baseline (writer faults: K == nWr-1 is close_notify)
@@ -362,6 +414,8 @@ type localResult struct {
 	closeErr  error
 	wFired    int
 	rFired    int
+	rbFired   int
+	rbFinal   int
 	wFirstK   int
 	got       []byte
 	rerr      error
@@ -501,6 +555,12 @@ func runLocal(j localJob) *localResult {
 	r.wFirstK = fw.wFirstK
 	fw.mu.Unlock()
 
+	if j.rb != nil {
+		fr.mu.Lock()
+		fr.rbMode, fr.rbOff, fr.rbTotal = j.rb.Mode, j.rb.Off, len(s.Net.Stream(dir))
+		fr.mu.Unlock()
+	}
+
 	// ---- the reader: reads to the end; after an injected transport fault it clears / extends the deadline and retries
 	p, msg, site = ev.Try(func() {
 		if j.rf != nil && j.rf.ViaDl {
@@ -547,6 +607,9 @@ func runLocal(j localJob) *localResult {
 		r.panics = append(r.panics, "reader: "+msg+" @ "+site)
 	}
 	_, r.rFired = fr.fired()
+	fr.mu.Lock()
+	r.rbFired, r.rbFinal = fr.rbFired, fr.rbFinal
+	fr.mu.Unlock()
 	s.Close()
 	r.wire = s.Net.Stream(dir)
 	r.stalled = s.Net.Stalled
@@ -734,6 +797,43 @@ func localJobs(c *ev.Ctx, cf connConf, rev bool, sizes []int, multi bool) []loca
 			}
 		}
 	}
+	// ---- (4) reader-side BEHAVIOURS of a healthy transport (io.Reader contract), nothing is faulty:
+	// (a) the last transport Read returns the final bytes of the stream together with io.EOF, the final segment starting at offset d of record ri
+	// (b) one (0, nil) answer at that position   (c) one byte per transport Read
+	rbShapes := []int{70000, 1}
+	if multi {
+		rbShapes = []int{70000}
+	}
+	if thorough {
+		rbShapes = []int{70000, 1, 7, rbufMixed}
+	}
+	for ri, rec := range base.recs {
+		tail := ri >= last-1 // the last record (close_notify) and the last data record: every split point; earlier records: their boundary
+		for d := 0; d < 5+rec.Len; d++ {
+			sel := d == 0
+			if tail {
+				sel = d <= 1 || d == 4 || d == 5 || d == 6 || d == 5+rec.Len/2 || d == 5+rec.Len-1
+			}
+			switch {
+			case thorough && (!multi || ri == last):
+				sel = true
+			case thorough && tail:
+				sel = d < 24 || d >= 5+rec.Len-16 || d%512 == 0
+			}
+			if !sel {
+				continue
+			}
+			for _, mode := range []string{"eof-with-data", "zero-read"} {
+				for _, rb := range rbShapes {
+					jobs = append(jobs, localJob{cf: cf, rev: rev, sizes: sizes, rbuf: rb, nWr: nWr,
+						rb: &rbehav{Mode: mode, Off: rec.Off + d, Rec: ri, D: d, Last: ri == last}})
+				}
+			}
+		}
+	}
+	for _, rb := range rbShapes {
+		jobs = append(jobs, localJob{cf: cf, rev: rev, sizes: sizes, rbuf: rb, nWr: nWr, rb: &rbehav{Mode: "one-byte", Off: -1, Rec: -1}})
+	}
 	return jobs
 }
 
@@ -760,16 +860,20 @@ func localLevel(c *ev.Ctx) {
 	for _, l := range lj {
 		jobs = append(jobs, l...)
 	}
-	nW, nR := 0, 0
+	nW, nR, nB := 0, 0, 0
 	for _, j := range jobs {
-		if j.wf != nil {
+		switch {
+		case j.wf != nil:
 			nW++
-		} else {
+		case j.rb != nil:
+			nB++
+		default:
 			nR++
 		}
 	}
 	c.Set("local_transport_write_fault_cases", nW)
 	c.Set("local_transport_read_fault_cases", nR)
+	c.Set("local_transport_reader_behaviour_cases", nB)
 	hists := make([]ev.Hist, c.Workers())
 	for i := range hists {
 		hists[i] = ev.Hist{}
@@ -794,6 +898,10 @@ func localLevel(c *ev.Ctx) {
 		if j.wf != nil {
 			wit["writer_transport_fault"] = map[string]any{"at_data_phase_transport_write": j.wf.K, "of": j.nWr, "kind": j.wf.class(), "continuation": contNames[j.wf.Cont],
 				"deadline_before_app_write": j.wf.DeadlineAt, "first_failed_transport_write": r.wFirstK}
+		}
+		if j.rb != nil {
+			wit["reader_transport_behaviour"] = map[string]any{"mode": j.rb.Mode, "record": j.rb.Rec, "offset_in_record": j.rb.D, "record_is_last_of_stream": j.rb.Last,
+				"bytes_returned_together_with_EOF": r.rbFinal, "read_errors_seen": r.readErrs}
 		}
 		if j.rf != nil {
 			wit["reader_transport_fault"] = map[string]any{"record": j.rf.Rec, "offset_in_record": j.rf.D, "kind": j.rf.class(), "read_errors_seen": r.readErrs}
@@ -877,6 +985,43 @@ func localLevel(c *ev.Ctx) {
 			// no writer fault: every Write succeeded
 			if !bytes.Equal(r.accepted, masterStream(sum(j.sizes))) || r.closeErr != nil {
 				c.Violation(fmt.Sprintf("no fault: stream not delivered intact (%s)", dn), wit)
+				return
+			}
+			if j.rb != nil {
+				// nothing is faulty and nothing was tampered with: exactly the written bytes, then a clean EOF (close_notify was sent)
+				if r.rbFired == 0 {
+					hists[w]["rbehaviour:not-reached"]++
+					c.Broken("reader behaviour plan not reached: %s %s %v %s rec=%d d=%d", j.cf.Name, dn, j.sizes, j.rb.Mode, j.rb.Rec, j.rb.D)
+					return
+				}
+				c.Distinct.Add(1)
+				where := "n/a"
+				if j.rb.Rec >= 0 {
+					where = "body"
+					switch {
+					case j.rb.D == 0:
+						where = "record-boundary"
+					case j.rb.D < 5:
+						where = "header"
+					}
+					if j.rb.Last {
+						where += "-of-last-record"
+					}
+				}
+				if !bytes.Equal(r.got, r.accepted) || !errors.Is(r.rerr, io.EOF) {
+					wit["needed"] = len(r.accepted)
+					what := "stream not delivered intact with a clean EOF"
+					if len(r.got) < len(r.accepted) || !bytes.Equal(r.got, r.accepted) {
+						what = "bytes lost or changed"
+					}
+					c.Violation(fmt.Sprintf("no fault, healthy transport answering %s: %s, reader ends with %s (%s)", j.rb.Mode, what, readerClass(r.rerr), dn), wit)
+					hists[w]["rbehaviour:"+j.rb.Mode+":"+where+":NOT-INTACT"]++
+					return
+				}
+				hists[w]["rbehaviour:"+j.rb.Mode+":"+where+":intact-clean-eof"]++
+				if i%211 == 0 {
+					c.Sample(wit)
+				}
 				return
 			}
 			if r.rFired == 0 {
